@@ -31,7 +31,10 @@ def _leaf(obj, strict_types=False):
                 return ('datetime-naive', obj.isoformat())
             # the library's convention is naive == UTC (timestamps, HTTP dates are composed as GMT)
             return ('datetime', obj.replace(tzinfo=UTC).isoformat())
-        return ('datetime-aware' if strict_types else 'datetime', obj.astimezone(UTC).isoformat())
+        try:
+            return ('datetime-aware' if strict_types else 'datetime', obj.astimezone(UTC).isoformat())
+        except (ValueError, OverflowError):     # unusable offset / instant: compare what can be compared
+            return ('datetime-unconvertible', repr(obj.replace(tzinfo=None)), repr(obj.tzinfo))
     if isinstance(obj, datetime.timedelta):
         return ('timedelta', obj.total_seconds())
     for projection in ('der', ):
@@ -84,6 +87,10 @@ def deep_state(obj, strict_types=False, _stack=None):
             items = [(deep_state(k, strict_types, _stack), deep_state(v, strict_types, _stack))
                      for k, v in obj.items()]
             return ('dict', tuple(sorted(items, key=repr)))
+        if isinstance(getattr(obj, 'der', None), (bytes, bytearray)):
+            # keys / certificates (cryptodatahub PublicKey and the library's PublicKeyX509 wrapper): the DER encoding is
+            # the value; their asn1crypto members are lazily parsed caches (hazard 13)
+            return ('leaf', type(obj).__qualname__, bytes(obj.der))
         if _is_lib(obj):
             fields = []
             seen = set()
